@@ -21,7 +21,16 @@ Three parts (DESIGN 5/C18; "partial by nature"):
     strided, Fortran; float64/float32/int64/int32; ndarray / pandas / list):
     bit-for-bit snapshots of every argument (and of the buffer a strided view
     lives in) before/after the call, and two consecutive calls under the same
-    numpy seed compared exactly.
+    numpy seed compared exactly;
+ 4. object histories (the quantifier's "histories"; section "object histories"
+    below): ONE Grid / Catchment taken through a random sequence of its public
+    operations (state-defining calls, derived-state calls, observers, grid-level
+    functions, input classes as in 3): after every step every array the caller
+    holds - arguments of this and of every earlier call, arrays taken from the
+    accessors of the object for the attributes the operation does not define -
+    is bit-for-bit unchanged; the same call at two points of the history with
+    nothing it reads redefined in between, and on a fresh object that received
+    only the state-defining calls, returns exactly the same result.
 A call that raises for an input class is not a failure of this property."""
 import contextlib
 import copy
@@ -1510,7 +1519,11 @@ def run(ctx):
                 "(ndarray C-contiguous / strided view inside a larger buffer / Fortran order; float64, float32, int64, "
                 "int32; pandas Series/DataFrame; nested lists) x data seeds: bit-for-bit snapshot of every argument "
                 "and of the surrounding buffer before/after, two consecutive calls under the same numpy seed compared "
-                "exactly; kernel entry points wrapped: descriptor, shared memory and acceptance of every array handed "
+                "exactly; object histories: one Grid / Catchment through a random sequence of public operations, after "
+                "every step the arrays passed to this or an earlier call and the arrays taken from the object's accessors "
+                "(attributes the operation does not define) bit-for-bit unchanged, the same call repeated later in the "
+                "history (nothing it reads redefined in between) and on a fresh object given only the state-defining calls "
+                "compared exactly; kernel entry points wrapped: descriptor, shared memory and acceptance of every array handed "
                 "to a kernel compared inside Coq with the provenance model; non-trivial = distinct (function, class, "
                 "outcome) signature")
     ctx.trusted = cm.STD_TRUST + [
